@@ -12,8 +12,9 @@ fn main() {
     let prof = verif_harness::gen::profile(&get("--profile", "mixed"));
     let out_path = get("--out", "-");
     let stats_path = get("--stats", "");
-    // Panics anywhere in the process (library threads included) are counted, never swallowed.
-    static PANICS: std::sync::atomic::AtomicU64 = std::sync::atomic::AtomicU64::new(0);
+    let journal = get("--journal", "");
+    if !journal.is_empty() { verif_harness::set_journal(&journal); }
+    use verif_harness::PANICS;
     std::panic::set_hook(Box::new(|info| {
         PANICS.fetch_add(1, std::sync::atomic::Ordering::SeqCst);
         eprintln!("PANIC {}", info);
